@@ -827,6 +827,7 @@ def plan(prop, tier, seed, known):
         for k in ([(seed * 3 + j) % 32 for j in range(2)] if q else range(0, 32, 2)):
             jobs.append({"name": "win%d" % k, "kind": "lin", "also": ["C08"], "driver": ["windows", "-part", str(k), "-parts", "32"]})
     elif prop == "C12":
+        jobs += commitwin_jobs(q, ["C12"])   # bitmap bits lost between concurrent commits expose another file's blocks after recovery
         n = 4 if q else 32
         for i in range(n):
             jobs.append(seq_job("recycle%d" % i, seed * 100 + i, "recycle", 4 if q else 8, 250 if q else 400, av, disk=6000))
@@ -898,7 +899,7 @@ def plan(prop, tier, seed, known):
                                   extra=["-loss", "2" if q else "6", "-cont", "3", "-nested", "1" if q else "3"]))
         for i in range(5):
             jobs.append(crash_job("crashscript%d" % i, i, "script", 1, 0, av, disk=3200,
-                                  extra=["-loss", "2" if q else "6", "-cont", "2", "-nested", "1" if q else "4"]))
+                                  extra=["-loss", "2" if q else "6", "-cont", "2", "-nested", "1" if q else "4", "-unst", "1"]))
         for i in range(2 if q else 12):
             jobs.append(crash_job("crashbig%d" % i, seed * 100 + 50 + i, "crashbig", 1, 12 if q else 20, av, disk=3400,
                                   extra=["-loss", "1", "-cont", "2", "-nested", "1", "-stride", "3" if q else "1"]))
@@ -913,8 +914,11 @@ def plan(prop, tier, seed, known):
         for i in range(n):
             jobs.append(crash_job("unstable%d" % i, seed * 100 + i, "crashun", 1 if q else 2, 35 if q else 50, av, disk=3200,
                                   extra=["-loss", "2" if q else "5", "-cont", "3", "-nested", "1"]))
-        jobs.append(crash_job("crashscript2", 2, "script", 1, 0, av, disk=3200, extra=["-loss", "2" if q else "6", "-cont", "2", "-nested", "1"]))
-        jobs.append(crash_job("crashscript4", 4, "script", 1, 0, av, disk=3200, extra=["-loss", "2" if q else "6", "-cont", "2", "-nested", "1"]))
+        jobs.append(crash_job("crashscript2", 2, "script", 1, 0, av, disk=3200, extra=["-loss", "2" if q else "6", "-cont", "2", "-nested", "1", "-unst", "1"]))
+        jobs.append(crash_job("crashscript2off", 2, "script", 1, 0, av, disk=3200, extra=["-loss", "2", "-cont", "1", "-nested", "0", "-unst", "0"]))
+        jobs.append(crash_job("crashscript4", 4, "script", 1, 0, av, disk=3200, extra=["-loss", "2" if q else "6", "-cont", "2", "-nested", "1", "-unst", "1"]))
+        jobs.append(crash_job("crashscript5", 5, "script", 1, 0, av, disk=3200, extra=["-loss", "1", "-cont", "0", "-nested", "0", "-stride", "3" if q else "1", "-unst", "1"]))
+        jobs += commitwin_jobs(q, ["C07", "C01"]) if False else []
         jobs += commitwin_jobs(q, ["C07", "C01"])
         jobs.append(seq_job("unstseq", seed, "data,mix", 4 if q else 16, 250, av))
         jobs.append(probe_job(prop, av))
